@@ -561,10 +561,28 @@ func (m *csMachine) ruleCancelParent(t *rapid.T) {
 	if m.getOp != nil {
 		m.closeWithGet = true
 	}
+	immediate := rapid.IntRange(0, 1).Draw(t, "callAtOnce") == 0
 	m.cancelPar()
 	m.closed = true
 	m.autoClosed = true
 	m.tr("cancelParent")
+	if immediate {
+		// the Channel's own context is a child of the cancelled one: it is cancelled by the time cancel() returns, so
+		// calls made from here on — before the Channel's background goroutine has had a chance to run — already fail
+		ch := m.ch
+		left := m.src.len()
+		res, pv := vkit.Call(func() any { v, err := ch.Get(context.Background()); return csGetRes{v, err} })
+		if pv != nil {
+			m.fail("C13+C12/get-panic", "Get panicked: %v", pv)
+		}
+		if r := res.(csGetRes); r.err == nil || m.src.len() != left {
+			m.fail("C13+C12/get-after-close-or-cancel", "a Get called right after the cancellation of the Channel's context returned (%v,%v); values in the source before/after: %d/%d", r.v, r.err, left, m.src.len())
+		}
+		m.tr("get-at-once=err")
+		if res, pv := vkit.Call(func() any { return ch.Commit() }); pv != nil || res == nil {
+			m.fail("C13+C12/commit-after-close-or-cancel", "a Commit called right after the cancellation of the Channel's context returned %v (panic %v)", res, pv)
+		}
+	}
 	m.settle()
 }
 
